@@ -33,6 +33,20 @@ func opText(p *core.Prog, fn *ssa.Function, b *ssa.BinOp) string {
 // functions accepted by filter: the divisor is proven non-zero; a modulo used as an index additionally
 // needs a non-negative dividend.
 func divisionRule(c *core.Check, r *core.Rule, filter func(*ssa.Function) bool) {
+	divisionRuleNotes(c, r, filter, nil)
+}
+
+// divisionRuleNotes is divisionRule with a reasoned table (construct -> invariant) of sites whose divisor is non-zero
+// by a data invariant this analysis cannot derive: they are named in the evidence as not decided.
+func divisionRuleNotes(c *core.Check, r *core.Rule, filter func(*ssa.Function) bool, notes map[string]string) {
+	used := map[string]bool{}
+	defer func() {
+		for k := range notes {
+			if !used[k] {
+				r.Unknown("stale note "+k, "-", "the reasoned table names a division that no longer exists")
+			}
+		}
+	}()
 	p := c.Prog
 	abs := absLike(p)
 	for _, fn := range p.ModFuncs {
@@ -42,7 +56,13 @@ func divisionRule(c *core.Check, r *core.Rule, filter func(*ssa.Function) bool) 
 		for _, ds := range core.DivSites(fn) {
 			key := core.FuncName(fn) + " | " + opText(p, fn, ds.Op)
 			ok, how := p.ProveDivisor(ds)
-			if ok {
+			if why, has := notes[key]; has && !ok {
+				used[key] = true
+				r.Skip(key, p.Pos(ds.Op.Pos()), "not decided: "+why)
+			} else if has {
+				used[key] = true
+				r.OK(key, p.Pos(ds.Op.Pos()), "divisor non-zero: "+how+" (the reasoned note is no longer needed)")
+			} else if ok {
 				r.OK(key, p.Pos(ds.Op.Pos()), "divisor non-zero: "+how)
 			} else {
 				r.Fail(key, p.Pos(ds.Op.Pos()), "integer "+map[token.Token]string{token.QUO: "division", token.REM: "modulo"}[ds.Op.Op]+" by a divisor that may be zero: "+how)
@@ -50,7 +70,13 @@ func divisionRule(c *core.Check, r *core.Rule, filter func(*ssa.Function) bool) 
 			if core.RemUsedAsIndex(ds.Op) {
 				key2 := core.FuncName(fn) + " | index by " + opText(p, fn, ds.Op)
 				nn, how2 := core.NonNegativeAt(fn, ds.Op, ds.Op.X, abs)
-				if nn {
+				if why, has := notes[key2]; has && !nn {
+					used[key2] = true
+					r.Skip(key2, p.Pos(ds.Op.Pos()), "not decided: "+why)
+				} else if nn {
+					if has {
+						used[key2] = true
+					}
 					r.OK(key2, p.Pos(ds.Op.Pos()), "dividend non-negative: "+how2)
 				} else {
 					r.Fail(key2, p.Pos(ds.Op.Pos()), "the result of % indexes a slice and the dividend may be negative (Go's % keeps the sign of the dividend): "+how2)
